@@ -22,7 +22,7 @@ macro_rules! h_borrow_clone_arc {
         } }
     };
 }
-// @h props=C01,C04,C16 fuc=ArcBorrow::clone_arc,Arc::from_raw,Arc::clone
+// @h props=C01,C04,C16,C03,C08,C09 fuc=ArcBorrow::clone_arc,Arc::from_raw,Arc::clone
 h_borrow_clone_arc!(c01_borrow_clone_arc__tr8, Tr8, Tr8::new());
 // @h props=C01,C04,C16 fuc=ArcBorrow::clone_arc,Arc::from_raw,Arc::clone
 h_borrow_clone_arc!(c01_borrow_clone_arc__a16, S16a16, S16a16::any());
